@@ -128,6 +128,16 @@ def parsePlan (origin : Bytes) : List TStep → List Tok → List TVal → Optio
       match lookup Gen.stringToAlgorithm (goUpper l.token) with
       | some v => if l.err then none else parsePlan origin rest ts.tail (acc ++ [.n v])
       | none => none
+  | .uintTtl strict :: rest, ts, acc =>
+    let l := headTok ts
+    if l.err then none
+    else match parseUintN 32 l.token with
+      | some v => parsePlan origin rest ts.tail (acc ++ [.n v])
+      | none =>
+        if strict then none
+        else match stringToTTL l.token with
+          | some v => parsePlan origin rest ts.tail (acc ++ [.n v])
+          | none => none
   | .tok :: rest, ts, acc =>
     let l := headTok ts
     if l.err then none else parsePlan origin rest ts.tail (acc ++ [.s l.token])
